@@ -398,22 +398,94 @@ Proof.
   intros. apply fix_chains_frame_gen; auto. apply IDP_refl. eapply FR_mono. apply FR_refl. intros x [].
 Qed.
 
+(* the same for the purge that stops at the rebind target (notify_parents=False): only the prefixes of length >= minlen *)
+Lemma fix_chain_from_snoc : forall m st r p k,
+  fix_chain_from m st (r, p ++ [k]) =
+  if Nat.leb m (length (p ++ [k])) then fix_chain_from m (update_at st (r, p ++ [k]) purge_list) (r, p) else fix_chain_from m st (r, p).
+Proof.
+  intros. unfold fix_chain_from. simpl. rewrite prefixes_desc_snoc. simpl. destruct (Nat.leb m (length (p ++ [k]))); auto.
+Qed.
+Lemma fix_chain_from_frame : forall m p st r, FR st (fix_chain_from m st (r, p)) (map nid0 (chain_at st (r, p))).
+Proof.
+  intros m. induction p using rev_ind; intros.
+  - unfold fix_chain_from. simpl. destruct (Nat.leb m 0); simpl. apply purge_step_frame. eapply FR_mono. apply FR_refl. intros x [].
+  - rewrite fix_chain_from_snoc. destruct (Nat.leb m (length (p ++ [x]))).
+    + eapply FR_mono. eapply FR_trans. apply purge_step_frame. apply IHp.
+      intros i I. apply in_app_or in I. destruct I as [I|I]; auto.
+      rewrite (chain_ids_update_at st r p [x] purge_list nid_purge) in I. apply chain_at_prefix_incl. auto.
+    + eapply FR_mono. apply IHp. apply chain_at_prefix_incl.
+Qed.
+Lemma IDP_fix_chain_from : forall m p s r, IDP s (fix_chain_from m s (r, p)).
+Proof.
+  intros m. induction p using rev_ind; intros.
+  - unfold fix_chain_from. simpl. destruct (Nat.leb m 0); simpl. apply IDP_purge_step. apply IDP_refl.
+  - rewrite fix_chain_from_snoc. destruct (Nat.leb m (length (p ++ [x]))); auto. eapply IDP_trans. apply IDP_purge_step. apply IHp.
+Qed.
+Lemma fix_chain_from_WFI : forall m st ps, WFI st -> WFI (fix_chain_from m st ps).
+Proof.
+  intros m st ps W. unfold fix_chain_from. generalize (filter (fun pre : list key => Nat.leb m (length pre)) (prefixes_desc (snd ps))).
+  intros l. revert st W. induction l; simpl; intros; auto. apply IHl. eapply WFI_step; eauto.
+  - apply wfs_update_at_total; auto using purge_list_wf, is_node_purge_list. apply W.
+  - apply ids_rel_same. apply next_update_at. apply all_ids_update_at_same. apply ids_purge_list.
+Qed.
+Lemma fix_chains_from_frame_gen : forall m stf R upd s, WFI stf ->
+  (forall i, In i upd -> incl (map nid0 (chain_of stf i)) R) ->
+  WFI s -> IDP stf s -> FR stf s R -> FR stf (fix_chains_from m s upd) R /\ WFI (fix_chains_from m s upd).
+Proof.
+  intros m stf R. induction upd as [|i r IH]; intros s W C Ws ID F. split; auto.
+  unfold fix_chains_from in *. simpl. destruct (locate s i) as [ps|] eqn:L.
+  - apply IH; auto. { intros; apply C; simpl; auto. }
+    + apply fix_chain_from_WFI. auto.
+    + eapply IDP_trans; eauto. destruct ps. apply IDP_fix_chain_from.
+    + eapply FR_mono. eapply FR_trans. exact F. destruct ps as [r0 p0]. apply fix_chain_from_frame.
+      intros j J. apply in_app_or in J. destruct J as [J|J]; auto.
+      apply in_map_iff in J. destruct J as [n' [E J]]. subst j.
+      apply (C i). simpl; auto. eapply chain_covered; eauto. apply Ws.
+  - apply IH; auto. intros; apply C; simpl; auto.
+Qed.
+
 (* --- rebind ------------------------------------------------------------------------------------------------------------------------------------------------- *)
+(* who is above a node after a write: nodes that are above the written container, or were above it before *)
+Lemma chain_of_sound : forall s i n, wfs s -> In n (chain_of s i) -> In n (live_nodes s) /\ In i (ids n).
+Proof.
+  intros. destruct (chain_of_in _ _ _ H H0) as (r & p & pre & rest & L & E & G & NN). subst p.
+  destruct (locate_spec _ _ _ H L) as (k & pa & pt & fl & its & G2).
+  split. eapply get_at_live; eauto. rewrite get_at_app, G in G2. eapply get_in_ids; eauto.
+Qed.
+Lemma cov_step : forall s s1 c2 i R0, WFI s -> WFI s1 -> SH s s1 c2 -> (i < next_id s)%N ->
+  incl (map nid0 (chain_of s i)) R0 -> incl (map nid0 (chain_of s1 i)) (map nid0 (chain_of s1 c2) ++ R0).
+Proof.
+  intros s s1 c2 i R0 W W1 [L S] B C j J. apply in_map_iff in J. destruct J as [n' [E J]]. subst j.
+  destruct (chain_of_sound _ _ _ (proj1 W1) J) as [LV II].
+  destruct (S _ LV) as [X|[X|(n & In' & Cn)]].
+  - apply in_or_app. left. apply in_map. apply chain_char; auto.
+  - exfalso. unfold allfresh in X. rewrite Forall_forall in X. apply X in II. lia.
+  - apply in_or_app. right. apply C. rewrite <- (cont_nid _ _ Cn). apply in_map. apply chain_char; auto. rewrite (cont_ids _ _ Cn). auto.
+Qed.
+
 Lemma rebind_frame : forall q sc tp pvs st upd0,
   WFI st -> Forall (fun kv => rv_ok (snd kv)) pvs ->
   exists t u stf ok e upd',
     rebind_tr q sc st tp pvs = (t, u, stf, ok) /\
     rebind_loop q sc st tp pvs upd0 = (stf, upd0 ++ upd', if ok then None else Some e) /\
-    FR st stf (rids t) /\ WFI stf /\ (forall i, In i upd' -> exists x, In x u /\ u_tid x = i).
+    FR st stf (rids t) /\ WFI stf /\ (forall i, In i upd' -> exists x, In x u /\ u_tid x = i) /\
+    (next_id st <= next_id stf)%N /\
+    (forall i R0, (i < next_id st)%N -> incl (map nid0 (chain_of st i)) R0 -> incl (map nid0 (chain_of stf i)) (R0 ++ rids t)) /\
+    (forall i, In i upd' -> incl (map nid0 (chain_of stf i)) (rids t)).
 Proof.
   intros q sc tp. induction pvs as [|[path rv] r IH]; intros st upd0 W OK.
-  - exists [], [], st, true, EOther, []. simpl. rewrite app_nil_r. split; auto. split; auto. split. apply FR_refl. split; auto. intros i [].
+  - exists [], [], st, true, EOther, []. simpl. rewrite app_nil_r. split; auto. split; auto. split. apply FR_refl. split; auto.
+    split. intros i []. split. lia. split. intros. rewrite app_nil_r. auto. intros i [].
   - inv OK. simpl in H1. simpl.
     assert (STOP : forall e, exists t u stf ok e0 upd',
               ([] : trace, [] : list update, st, false) = (t, u, stf, ok) /\
               (st, upd0, Some e) = (stf, upd0 ++ upd', if ok then @None err else Some e0) /\
-              FR st stf (rids t) /\ WFI stf /\ (forall i, In i upd' -> exists x, In x u /\ u_tid x = i)).
-    { intros e. exists [], [], st, false, e, []. rewrite app_nil_r. split; auto. split; auto. split. apply FR_refl. split; auto. intros i []. }
+              FR st stf (rids t) /\ WFI stf /\ (forall i, In i upd' -> exists x, In x u /\ u_tid x = i) /\
+              (next_id st <= next_id stf)%N /\
+              (forall i R0, (i < next_id st)%N -> incl (map nid0 (chain_of st i)) R0 -> incl (map nid0 (chain_of stf i)) (R0 ++ rids t)) /\
+              (forall i, In i upd' -> incl (map nid0 (chain_of stf i)) (rids t))).
+    { intros e. exists [], [], st, false, e, []. rewrite app_nil_r. split; auto. split; auto. split. apply FR_refl. split; auto.
+      split. intros i []. split. lia. split. intros. simpl. rewrite app_nil_r. auto. intros i []. }
     unfold rebind_one, rebind_one_tr.
     destruct path as [|k0 path']; [apply STOP|].
     set (rl := removelast (k0 :: path')). set (lk := last (k0 :: path') (KI 0)).
@@ -425,19 +497,30 @@ Proof.
     destruct (prim_facts q (prim q) _ _ _ _ _ _ _ _ _ _ _ _ _ (or_intror (or_intror (or_intror eq_refl))) W H1 G P) as (W1 & S1 & ST1 & NU).
     destruct p.
     + assert (st1 = st) by (apply NU; discriminate). subst st1.
-      destruct (IH st upd0 W H2) as (t & u & stf & ok & e & upd' & E1 & E2 & F & Wf & C).
-      exists t, u, stf, ok, e, upd'. rewrite E1, E2. simpl. auto.
-    + destruct (IH st1 (upd0 ++ [cid]) W1 H2) as (t & u & stf & ok & e & upd' & E1 & E2 & F & Wf & C).
+      destruct (IH st upd0 W H2) as (t & u & stf & ok & e & upd' & E1 & E2 & F & Wf & C & LE & CT & CV).
+      exists t, u, stf, ok, e, upd'. rewrite E1, E2. simpl. auto 10.
+    + destruct (IH st1 (upd0 ++ [cid]) W1 H2) as (t & u & stf & ok & e & upd' & E1 & E2 & F & Wf & C & LE & CT & CV).
       destruct (upd_of_tid st st1 (fst tp, snd tp ++ app) lk rv _ _ _ _ _ _ G) as (u0 & EU & TU).
+      assert (CB : (cid < next_id st)%N).
+      { change cid with (nid0 (Node cid ck cpa cpt cfl cits)). apply live_below; auto. eapply get_at_live; eauto. }
       exists (TW st1 cid :: t), (u0 :: u), stf, ok, e, (cid :: upd'). rewrite E1, E2. simpl.
       rewrite (cur_id_at _ _ _ _ _ _ _ _ G), EU. simpl. rewrite <- app_assoc. simpl.
-      split; auto. split; auto. split; [|split; auto].
-      * change (rids (TW st1 cid :: t)) with (map nid0 (chain_of st1 cid) ++ rids t).
-        eapply FR_trans; eauto. destruct S1. apply FR_by_ids; auto.
+      change (rids (TW st1 cid :: t)) with (map nid0 (chain_of st1 cid) ++ rids t).
+      split; auto. split; auto. split; [|split; [auto|split; [|split; [|split]]]].
+      * eapply FR_trans; eauto. destruct S1. apply FR_by_ids; auto.
       * intros i [E|I]. subst i. exists u0. simpl. auto. destruct (C _ I) as (x & Ix & Ex). exists x. simpl. auto.
+      * destruct S1. lia.
+      * intros i R0 B0 C0. pose proof (cov_step st st1 cid i R0 W W1 S1 B0 C0) as C1.
+        assert (B1 : (i < next_id st1)%N) by (destruct S1; lia).
+        pose proof (CT i _ B1 C1) as C2. intros x Ix. apply C2 in Ix.
+        apply in_app_or in Ix. destruct Ix as [Ix|Ix]. apply in_app_or in Ix. destruct Ix as [Ix|Ix].
+        apply in_or_app. right. apply in_or_app. auto. apply in_or_app. auto. apply in_or_app. right. apply in_or_app. auto.
+      * intros i [E|I].
+        -- subst i. assert (B1 : (cid < next_id st1)%N) by (destruct S1; lia).
+           apply (CT cid (map nid0 (chain_of st1 cid)) B1 (incl_refl _)).
+        -- intros x Ix. apply in_or_app. right. apply (CV _ I). auto.
     + assert (st1 = st) by (apply NU; discriminate). subst st1. apply STOP.
 Qed.
-
 Lemma rebind_core_frame : forall q sc st tp tk pvs nt,
   WFI st -> Forall (fun kv => rv_ok (snd kv)) pvs ->
   FR st (fst (rebind_core q sc st tp tk pvs nt)) (rids (rebind_core_tr q sc st tp tk pvs nt None)).
@@ -445,7 +528,7 @@ Proof.
   intros. unfold rebind_core, rebind_core_tr.
   set (ordered := match tk with KList => sort_desc pvs | _ => pvs end).
   assert (O : Forall (fun kv => rv_ok (snd kv)) ordered) by (unfold ordered; destruct tk; auto using sort_desc_forall').
-  destruct (rebind_frame q sc tp ordered st [] H O) as (t & u & stf & ok & e & upd' & E1 & E2 & F & Wf & C).
+  destruct (rebind_frame q sc tp ordered st [] H O) as (t & u & stf & ok & e & upd' & E1 & E2 & F & Wf & C & _).
   rewrite E1, E2. simpl. destruct ok; simpl; auto. destruct nt; simpl; auto.
   set (u' := match tk with KList => rev u | _ => u end).
   assert (C' : forall i, In i upd' -> exists x, In x u' /\ u_tid x = i).
@@ -695,47 +778,57 @@ Proof.
   apply gc_frame. rewrite app_nil_r. apply incl_refl.
 Qed.
 
-(* one step of the extended model keeps the forest well-formed ... *)
-Lemma stepx_WFI : forall q st sc ps pvs skip, WFI st -> WFI (fst (fst (stepx q st sc ps pvs skip true))).
+(* rebind(..., notify_parents=False): the purge stops at the rebind target; the resets of the writes alone cover it *)
+Lemma rebindx_core_frame : forall q sc st tp tk pvs nt np stop,
+  WFI st -> Forall (fun kv => rv_ok (snd kv)) pvs -> (np = true -> stop = None) ->
+  FR st (fst (rebindx_core q sc st tp tk pvs nt np)) (rids (rebind_core_tr q sc st tp tk pvs nt stop)) /\
+  WFI (fst (rebindx_core q sc st tp tk pvs nt np)).
 Proof.
-  intros. unfold stepx.
-  destruct (get_at st ps) as [[lf|tid tk pa tpth tfl its]|]; simpl; auto.
-  destruct (resolve_kvs st pvs) as [[|pv r]|] eqn:RK; simpl; auto.
-  destruct (match tk with KObj _ => treats_as_sealed sc tfl | _ => false end); simpl; auto.
-  unfold rebindx_core.
-  destruct (rebind_core q sc st ps tk (pv :: r) (match skip with Some b => negb b | None => notify_on sc end)) as [st' out] eqn:RC. simpl.
-  assert (OK : Forall (fun kv => rv_ok (snd kv)) (pv :: r)) by (eapply resolve_kvs_ok; eauto).
-  eapply WFI_step; eauto.
-  - apply gc_wfs. destruct H. eapply rebind_core_wfs; eauto.
-  - eapply ids_rel_trans. eapply rebind_core_rel; eauto. apply gc_rel.
-Qed.
-Lemma stepx_frame : forall q st sc ps pvs skip, WFI st ->
-  FR st (fst (fst (stepx q st sc ps pvs skip true))) (rids (snd (stepx q st sc ps pvs skip true))).
-Proof.
-  intros. unfold stepx.
-  destruct (get_at st ps) as [[lf|tid tk pa tpth tfl its]|]; simpl; try apply FR_refl.
-  destruct (resolve_kvs st pvs) as [[|pv r]|] eqn:RK; simpl; try apply FR_refl.
-  destruct (match tk with KObj _ => treats_as_sealed sc tfl | _ => false end); simpl; try apply FR_refl.
-  unfold rebindx_core.
-  assert (OK : Forall (fun kv => rv_ok (snd kv)) (pv :: r)) by (eapply resolve_kvs_ok; eauto).
-  pose proof (rebind_core_frame q sc st ps tk (pv :: r) (match skip with Some b => negb b | None => notify_on sc end) H OK) as F.
-  destruct (rebind_core q sc st ps tk (pv :: r) (match skip with Some b => negb b | None => notify_on sc end)) as [st' out]. simpl in *.
-  eapply FR_mono. eapply FR_trans. exact F. apply gc_frame. rewrite app_nil_r. apply incl_refl.
+  intros q sc st tp tk pvs nt np stop W OK NP. unfold rebindx_core. destruct np.
+  - rewrite (NP eq_refl). split. apply rebind_core_frame; auto.
+    destruct (rebind_core q sc st tp tk pvs nt) as [st' o] eqn:RC. simpl.
+    eapply WFI_step; eauto. destruct W. eapply rebind_core_wfs; eauto. eapply rebind_core_rel; eauto.
+  - unfold rebind_core_tr.
+    set (ordered := match tk with KList => sort_desc pvs | _ => pvs end).
+    assert (O : Forall (fun kv => rv_ok (snd kv)) ordered) by (unfold ordered; destruct tk; auto using sort_desc_forall').
+    destruct (rebind_frame q sc tp ordered st [] W O) as (t & u & stf & ok & e & upd' & E1 & E2 & F & Wf & C & LE & CT & CV).
+    rewrite E1, E2. simpl. destruct ok; simpl; auto. destruct nt; simpl; auto.
+    destruct (fix_chains_from_frame_gen (length (snd tp)) stf (rids t) upd' stf Wf CV Wf (IDP_refl _)) as [F2 W2].
+    { eapply FR_mono. apply FR_refl. intros x []. }
+    split; auto. eapply FR_mono. eapply FR_trans; eauto.
+    intros x Ix. rewrite rids_app. apply in_or_app. left. apply in_app_or in Ix. tauto.
 Qed.
 
-(* which steps of the extended model the freshness theorem covers: every operation of SymCore, every query, rebind with
-   skip_notification = anything; not rebind(..., notify_parents=False) *)
+(* one step of the extended model keeps the forest well-formed ... *)
+Lemma stepx_facts : forall q st sc ps pvs skip np, WFI st ->
+  WFI (fst (fst (stepx q st sc ps pvs skip np))) /\
+  FR st (fst (fst (stepx q st sc ps pvs skip np))) (rids (snd (stepx q st sc ps pvs skip np))).
+Proof.
+  intros. unfold stepx.
+  destruct (get_at st ps) as [[lf|tid tk pa tpth tfl its]|]; simpl; try (split; [auto|apply FR_refl]).
+  destruct (resolve_kvs st pvs) as [[|pv r]|] eqn:RK; simpl; try (split; [auto|apply FR_refl]).
+  destruct (match tk with KObj _ => treats_as_sealed sc tfl | _ => false end); simpl; try (split; [auto|apply FR_refl]).
+  assert (OK : Forall (fun kv => rv_ok (snd kv)) (pv :: r)) by (eapply resolve_kvs_ok; eauto).
+  destruct (rebindx_core_frame q sc st ps tk (pv :: r) (match skip with Some b => negb b | None => notify_on sc end) np
+                               (if np then None else Some tid) H OK) as [F W1]. { intros E; rewrite E; auto. }
+  destruct (rebindx_core q sc st ps tk (pv :: r) (match skip with Some b => negb b | None => notify_on sc end) np) as [st' out]. simpl in *.
+  split.
+  - eapply WFI_step; eauto. apply gc_wfs. apply W1. apply gc_rel.
+  - eapply FR_mono. eapply FR_trans. exact F. apply gc_frame. rewrite app_nil_r. apply incl_refl.
+Qed.
+
+(* which steps need a side condition: only sort() / reverse() (see op_exact) *)
 Definition covered (st : state) (o : op2) : Prop :=
   match o with
   | Base so => step_exact st so
-  | RebindX _ _ _ _ np => np = true
+  | RebindX _ _ _ _ _ => True
   | Query _ _ => True
   end.
 Theorem step2_WFI : forall q xs o, WFI (x_st xs) -> covered (x_st xs) o -> WFI (x_st (fst (fst (step2 q xs o)))).
 Proof.
   intros q [st c] o W CV. destruct o; simpl in *.
   - pose proof (step_WFI q st o W). destruct (step q st o). simpl in *. auto.
-  - subst np. pose proof (stepx_WFI q st sc ps pvs skip W). destruct (stepx q st sc ps pvs skip true) as [[st' out] tr]. simpl in *. auto.
+  - destruct (stepx_facts q st sc ps pvs skip np W) as [W1 _]. destruct (stepx q st sc ps pvs skip np) as [[st' out] tr]. simpl in *. auto.
   - destruct (get_at st ps) as [[lf|i k pa pt fl its]|]; simpl; auto.
 Qed.
 (* ... and every memoised fact valid *)
@@ -744,8 +837,8 @@ Proof.
   intros q [st c] o W CV F. destruct o; simpl in *.
   - pose proof (step_frame q st o W CV) as FRM. destruct (step q st o) as [st' out]. simpl in *.
     rewrite apply_trace_reset. eapply reset_sound; eauto.
-  - subst np. pose proof (stepx_frame q st sc ps pvs skip W) as FRM.
-    destruct (stepx q st sc ps pvs skip true) as [[st' out] tr]. simpl in *.
+  - destruct (stepx_facts q st sc ps pvs skip np W) as [_ FRM].
+    destruct (stepx q st sc ps pvs skip np) as [[st' out] tr]. simpl in *.
     rewrite apply_trace_reset. eapply reset_sound; eauto.
   - destruct (get_at st ps) as [[lf|i k pa pt fl its]|] eqn:G; simpl; auto.
     apply (query_fresh st c (Node i k pa pt fl its) f W F). eapply get_at_live; eauto.
